@@ -360,6 +360,14 @@ func caseWS(c *mon.Case, sp spec) {
 			mm.Header = append(mm.Header, h...)
 			mm.Body = append(mm.Body, body...)
 			c.Logf("SendMsg header % x body %d bytes", h, len(body))
+			// Patterns that pass the header through untouched: the application keeps a second reference
+			// and sends the same message object again (what REQ does for a retransmission and SURVEYOR
+			// for a fan-out).  The second transmission must be the same bytes as the first.
+			again := (sp.Sock == "xreq" || sp.Sock == "xsurveyor") && c.Rand.Intn(2) == 0
+			if again {
+				mm.Clone()
+			}
+		resend:
 			rd := mon.Go("ws-read", func() (interface{}, error) {
 				mt, data, err := conn.ReadMessage()
 				return [2]interface{}{mt, data}, err
@@ -394,6 +402,11 @@ func caseWS(c *mon.Case, sp spec) {
 			sent = append(sent, wire)
 			nOut++
 			shape += sizeClass(len(wire))
+			if again {
+				again = false
+				c.Count("ws_same_message_sent_twice", 1)
+				goto resend
+			}
 		}
 		c.Count("ws_messages_library_to_peer_compared", nOut)
 	}
